@@ -64,6 +64,7 @@ Definition fills (k : post_kind) (cfg : post_config) (relay doc : string) : list
   [html_url_attr_escape (endpoint k cfg); html_attr_escape (base64_encode doc)]
   ++ (if relay =?s "" then [] else [html_attr_escape relay]).
 
+(* cross-check of gen/main.go's extraction of the action expression: it names the field the model uses *)
 Lemma url_field_ok k (e : bool) cfg :
   match nth_error (url_fields_of k) (if e then 1%nat else 0%nat) with
   | Some uf => eval_url_field cfg uf = Some (endpoint k cfg)
@@ -80,12 +81,10 @@ Theorem build_post_body_shape k cfg relay doc :
   = Ok (interleave (template_literals k (relay =?s "")) (fills k cfg relay doc)).
 Proof.
   unfold build_post_body, fills. rewrite literals_ok.
-  pose proof (url_field_ok k (relay =?s "") cfg) as U. pose proof (template_ok k (relay =?s "")) as T.
+  pose proof (template_ok k (relay =?s "")) as T.
   destruct (relay =?s "") eqn:E.
-  - rewrite T. destruct (nth_error (url_fields_of k) 1) as [uf|]; [|destruct U]. rewrite U.
-    unfold render. rewrite compile_ok. cbn [app]. apply (exec_without_relay apply_esc).
-  - rewrite T. destruct (nth_error (url_fields_of k) 0) as [uf|]; [|destruct U]. rewrite U.
-    unfold render. rewrite compile_ok. cbn [app]. apply (exec_with_relay apply_esc).
+  - rewrite T. unfold render. rewrite compile_ok. cbn [app]. apply (exec_without_relay apply_esc).
+  - rewrite T. unfold render. rewrite compile_ok. cbn [app]. apply (exec_with_relay apply_esc).
 Qed.
 
 (* ================================================================ reading the page back *)
